@@ -1421,8 +1421,28 @@ class Models:
         return SReal(sym.fresh("clock", sym.R), "float")
 
     # ---- numpy
+    def _array_of_tuples(self, ip, v):
+        """np.asarray / np.array of a symbolic-length list of k-tuples: an n x k array of which only the transpose (a list of k
+        column arrays), ndim and shape are modelled; None / Optional components (NaN after conversion) are out of reach."""
+        # (elements are computed lazily and may carry obligations, so they are never probed: the creator of the sequence
+        # declares the arity of its elements in `elem_tuple`)
+        m = getattr(v, "elem_tuple", None) if isinstance(v, SSeq) else None
+        if m is None:
+            return None
+        def comp(k, j):
+            x = v.get(k)[j]
+            if x is None or isinstance(x, SOpt):
+                raise Unsupported("array of tuples with optional components")
+            return x
+        cols = PList([SSeq(v.n, (lambda k, j=j: comp(k, j)), "ndarray", "column") for j in range(m)])
+        n_ = v.n if isinstance(v.n, int) else SInt(v.n)
+        return SpecFn(None, "array of tuples", meta={"attrs": {"T": cols, "ndim": 2, "shape": (n_, m)}})
+
     def b_numpy_asarray(self, ip, a, kw, node):
         v = a[0]
+        t_ = self._array_of_tuples(ip, v)
+        if t_ is not None:
+            return t_
         if isinstance(v, (SArr, SSeq)):
             return v if isinstance(v, SArr) else SSeq(v.n, v.get, "ndarray", v.elem_desc, v.tag)
         if isinstance(v, PList):
@@ -1437,6 +1457,15 @@ class Models:
             return ip.schema.matrix_from_rows(ip, v.items)
         if isinstance(v, (SArr,)):
             return SArr(v.arr, v.n, v.shape)
+        t_ = self._array_of_tuples(ip, v)
+        if t_ is not None:
+            return t_
+        if isinstance(v, SSeq) and v.elem_rowlen is not None:
+            # np.array(list of m rows of equal length): an m x rowlen matrix whose row p is element p of the list (the link is
+            # instantiated by `matrix_row`, at the positions a contract talks about)
+            M = sym.fresh("rowsmatrix", sym.RealMat)
+            ip.path.ghost.setdefault("matrix_rows", {})[str(M)] = v
+            return SArr(M, shape=(self.len_term(v.n), v.elem_rowlen))
         if isinstance(v, (SSeq, PList)):
             S = self.as_seq(v)
             def el(k):
@@ -1446,6 +1475,16 @@ class Models:
                 return self.np_scalar(v_) if self.isnum(v_) else v_
             return SSeq(S.n, el, "ndarray", "np.array")
         raise Unsupported(f"np.array({type(v).__name__})")
+
+    def matrix_row(self, ip, A, p):
+        """Row p of a matrix built by np.array(list of rows): the array term, linked to element p of the source list."""
+        src_ = ip.path.ghost.get("matrix_rows", {}).get(str(A.arr))
+        row = z3.Select(A.arr, p)
+        if src_ is not None:
+            el = src_.get(p)
+            if isinstance(el, SArr):
+                ip.path.assume(z3.Implies(z3.And(p >= 0, p < self.len_term(src_.n)), row == el.arr))
+        return row
 
     def b_numpy_zeros(self, ip, a, kw, node):
         return self._filled(ip, a[0], sym.rv(0))
@@ -1570,16 +1609,21 @@ class Models:
             if b is None:
                 return None
             if isinstance(b, (SSeq, SArr, PList)):
-                return real_term(self.seq_get(b, k)) if not isinstance(b, SSeq) else real_term(b.get(k))
+                v_ = self.seq_get(b, k) if not isinstance(b, SSeq) else b.get(k)
+                if isinstance(v_, SpecFn) and isinstance(v_.meta.get("opt"), SOpt) and v_.meta.get("inf") in ("inf", "-inf"):
+                    # "the bound, or an infinity when there is none": clipping against an infinity changes nothing
+                    o_ = v_.meta["opt"]
+                    return (o_.isnone, real_term(o_.val))
+                return real_term(v_)
             return real_term(b)
 
         def el(k):
             t = real_term(X.get(k))
             l_, h_ = bound(lo, k), bound(hi, k)
             if l_ is not None:
-                t = sym.zmax(t, l_)
+                t = sym.zmax(t, l_) if not isinstance(l_, tuple) else z3.If(l_[0], t, sym.zmax(t, l_[1]))
             if h_ is not None:
-                t = sym.zmin(t, h_)
+                t = sym.zmin(t, h_) if not isinstance(h_, tuple) else z3.If(h_[0], t, sym.zmin(t, h_[1]))
             return SReal(t, "npfloat")
         return SSeq(X.n, el, "ndarray", "clip")
 
@@ -1660,6 +1704,9 @@ class Models:
                 return None
             if name == "copy":
                 return PDict(dict(recv.items))
+            if name == "clear":
+                recv.items.clear()
+                return None
             if name == "pop":
                 kk = self.key(args[0])
                 if kk in recv.items:
